@@ -195,7 +195,7 @@ fn clean_dir(dir: &str) {
 /// Execute one case on a fresh thread under a fresh simulated OS.
 /// Wall-clock budget of one run (normal runs take well under a millisecond): a run that does not finish is a
 /// reported "no progress" violation, not a stuck check.
-pub const WATCHDOG_SECS: u64 = 20;
+pub const WATCHDOG_SECS: u64 = 10;
 
 pub fn run_case<P: Prop>(prop: &P, case: &P::Case, disk: &str, want_events: bool) -> RunOut {
     clean_dir(disk);
@@ -425,6 +425,10 @@ pub fn run_check<P: Prop>(prop: &P, opt: &Options) -> i32 {
                         stop.store(true, Ordering::Relaxed);
                     }
                     for v in out.violations {
+                        if v.class.ends_with(":no-progress:watchdog") {
+                            // a run that does not terminate leaves a spinning thread behind: report and stop the batch
+                            stop.store(true, Ordering::Relaxed);
+                        }
                         if a.violations.len() < 64 {
                             a.violations.push((idx, v));
                         }
@@ -482,9 +486,13 @@ pub fn run_check<P: Prop>(prop: &P, opt: &Options) -> i32 {
     }
 
     // in-process determinism sample: re-execute a prefix of the runs and compare event-log hashes
-    let det_n = match opt.tier {
-        Tier::Quick => 50.min(total),
-        Tier::Thorough => 200.min(total),
+    let det_n = if HUNG.load(Ordering::Relaxed) > 0 {
+        0
+    } else {
+        match opt.tier {
+            Tier::Quick => 50.min(total),
+            Tier::Thorough => 200.min(total),
+        }
     };
     let mut det_mismatch = 0;
     {
